@@ -277,7 +277,7 @@ Definition spec_move (st : sstate) (uid : bool) (ss : seqset) (dest : N) : sstat
                   :: expunge_lines l (fun _ m => moved m)
                   ++ (if ss_box s =? dest
                       then arrivals (ss_recent s) l rec2 l2
-                                    (length l - length src) uid
+                                    (length (filter (fun m => negb (moved m)) l)) uid
                       else recent_line (ss_recent s) l rec2 l2)))
         end
       end
